@@ -820,11 +820,17 @@ impl<'tcx> Cx<'tcx> {
                     let lo = sm.lookup_char_pos(tcx.def_span(did).lo());
                     let _ = write!(out, ",\"file\":{},\"line\":{}", js(&rel_file(&lo.file.name.prefer_local_unconditionally().to_string())), lo.line);
                     out.push_str(",\"variants\":[");
+                    let discrs: Vec<String> = if def.is_enum() {
+                        def.discriminants(tcx).map(|(_, d)| d.val.to_string()).collect()
+                    } else {
+                        Vec::new()
+                    };
                     for (i, v) in def.variants().iter().enumerate() {
                         if i > 0 {
                             out.push(',');
                         }
-                        let _ = write!(out, "{{\"name\":{},\"fields\":[", js(&v.name.to_string()));
+                        let dv = discrs.get(i).cloned().unwrap_or_else(|| i.to_string());
+                        let _ = write!(out, "{{\"name\":{},\"discr\":{},\"fields\":[", js(&v.name.to_string()), js(&dv));
                         for (j, f) in v.fields.iter().enumerate() {
                             if j > 0 {
                                 out.push(',');
